@@ -1,6 +1,7 @@
 import SaModel.Props.C04
 import SaModel.Props.C01Complete
 import SaModel.Lemmas.C04Accept
+import SaModel.Lemmas.C01FinishTraced
 /-
 C04, the acceptance half: **the schema traced from a type accepts every value of that type**.
 
@@ -68,6 +69,50 @@ theorem C04_accept_rows_nodict (c : Trace.Code) (O : Trace.Options) (ext : Ext) 
   exact C04_accept_rows c O ext n fs vs fields h0 hfrag hwt hft
     (safe_of_traced (viewOpts O) hd fs (by simpa [noEnum] using hn) fields hfields) hcap
 
+/-- **Acceptance, complete, without dictionary encoding**: `to_marrow` SUCCEEDS on every batch of well-typed values of
+a record type of the fragment against the schema traced from the type (`string_dictionary_encoding` off; explicit
+capacity bound).  `build_arrays` cannot refuse: a traced schema of an enum-free type has no FixedSizeBinary /
+FixedSizeList / Dictionary / Union (`finish_total`, `buildArrays_traced` in `Lemmas/C01FinishTraced.lean`, with C03's shape
+invariant `BuiltFor` preserved by `push_takeRest`).  `_partial`: with dictionary encoding on, `hsafe` and the `finish`
+of dictionaries are not derived; `fromType … = ok` is a hypothesis. -/
+theorem C04_accept_nodict_partial (c : Trace.Code) (O : Trace.Options) (ext : Ext) (n : String) (fs : TFields) (vs : List Val)
+    (fields : List Field)
+    (h0 : O.overwrites = []) (hd : O.string_dictionary_encoding = false) (hfrag : frag (.struct n fs) = true)
+    (hwt : ∀ v ∈ vs, wt (.struct n fs) v = true)
+    (hft : Trace.fromType c O (toTraceTy (.struct n fs)) = .ok fields)
+    (hcap : ((vs.map (ser (.struct n fs))).map (vsize ext)).sum ≤ 2147483647) :
+    ∃ arrs, toMarrow ext fields (vs.map (ser (.struct n fs))) = .ok arrs := by
+  obtain ⟨root, hrun, htm⟩ := C04_accept_rows_nodict c O ext n fs vs fields h0 hd hfrag hwt hft hcap
+  have hn : noEnum (.struct n fs) = true := frag_noEnum _ hfrag
+  have hroot := C04_fromType_mapping c O h0 _ hn fields hft
+  have hfields : fields = (mappingFields (viewOpts O) fs).toList := by
+    simp [mappingRoot, mappingDT] at hroot; exact hroot.symm
+  rw [hfields] at hrun
+  obtain ⟨arrs, rest, hba⟩ := buildArrays_traced ext (viewOpts O) hd fs (by simpa [noEnum] using hn) _ root hrun
+  exact ⟨arrs, by rw [htm, hba]; rfl⟩
+
+/-- **C04 end to end, without dictionary encoding**: serialization against the traced schema succeeds, and reading
+everything back returns the batch, normalised (`norm` is the identity for `plainOpt` types: `C04_norm_eq_self`).
+Remaining hypotheses: `fromType … = ok fields`, the capacity bound, `hext`, `hphys`. -/
+theorem C04_end_to_end_nodict_partial (c : Trace.Code) (O : Trace.Options) (ext : Ext) (n : String) (fs : TFields) (vs : List Val)
+    (fields : List Field)
+    (h0 : O.overwrites = []) (hd : O.string_dictionary_encoding = false) (hfrag : frag (.struct n fs) = true) (hne : fs ≠ .nil)
+    (hwt : ∀ v ∈ vs, wt (.struct n fs) v = true)
+    (hext : Lemmas.C03.ExtOK ext)
+    (hft : Trace.fromType c O (toTraceTy (.struct n fs)) = .ok fields)
+    (hcap : ((vs.map (ser (.struct n fs))).map (vsize ext)).sum ≤ 2147483647) :
+    ∃ arrs, toMarrow ext fields (vs.map (ser (.struct n fs))) = .ok arrs ∧
+      ((∀ a ∈ arrs, Read.physical a = true) →
+        readAll (toTarget (.struct n fs)) fields arrs = .ok (vs.map fun v => dvalOf (.struct n fs) (norm (.struct n fs) v))) := by
+  obtain ⟨arrs, htm⟩ := C04_accept_nodict_partial c O ext n fs vs fields h0 hd hfrag hwt hft hcap
+  refine ⟨arrs, htm, fun hphys => ?_⟩
+  have hn : noEnum (.struct n fs) = true := frag_noEnum _ hfrag
+  have hroot := C04_fromType_mapping c O h0 _ hn fields hft
+  have hfields : fields = (mappingFields (viewOpts O) fs).toList := by
+    simp [mappingRoot, mappingDT] at hroot; exact hroot.symm
+  exact C04_roundtrip_bulk_partial c O ext n fs vs fields arrs h0 hfrag hne hwt hext
+    (safe_of_traced (viewOpts O) hd fs (by simpa [noEnum] using hn) fields hfields) hphys hft htm
+
 /-! ### non-vacuity: the batch of `Props/C04.lean` (`exFragRoot`, two records) meets every hypothesis -/
 
 example : ((exBatch.map (ser exFragRoot)).map (vsize {})).sum ≤ 2147483647 := by decide +kernel
@@ -76,5 +121,11 @@ example : ∃ root, runRows {} exFields (exBatch.map (ser exFragRoot)) = .ok roo
     toMarrow {} exFields (exBatch.map (ser exFragRoot)) = (do let (arrs, _) ← buildArrays {} root; pure arrs) :=
   C04_accept_rows_nodict .fixed exO {} "Root" _ exBatch exFields rfl rfl (by decide +kernel) (by decide +kernel) exTrace
     (by decide +kernel)
+
+example : ∃ arrs, toMarrow {} exFields (exBatch.map (ser exFragRoot)) = .ok arrs ∧
+    ((∀ a ∈ arrs, Read.physical a = true) →
+      readAll (toTarget exFragRoot) exFields arrs = .ok (exBatch.map fun v => dvalOf exFragRoot (norm exFragRoot v))) :=
+  C04_end_to_end_nodict_partial .fixed exO {} "Root" _ exBatch exFields rfl rfl (by decide +kernel) (by simp) (by decide +kernel)
+    exExtOK exTrace (by decide +kernel)
 
 end SaModel.Props.C04
